@@ -389,6 +389,69 @@ impl Space for Histories {
     }
 }
 
+/// Two names on one provider: for ordered pairs (a, b) of zone names, a fresh provider answers a, b, b, a
+/// (offsets in 1900, where nearly every zone has its own local mean time, and in July 2020); every answer must
+/// equal that of a provider that has seen nothing else. Quick: the related pairs (one name a prefix of the
+/// other, equal ignoring case, neighbours in sorted order, a name with itself); thorough: every ordered pair.
+struct NamePairs {
+    names: Vec<String>,
+    fresh: Vec<[Ans; 2]>,
+    pairs: Vec<(u32, u32)>,
+    all: bool,
+}
+const PAIR_T: [i128; 2] = [-2_208_988_800_000_000_000, 1_593_561_600_000_000_000];
+
+impl NamePairs {
+    fn new(names: &[String], tier: Tier) -> Self {
+        let off = |p: &FsTzdbProvider, z: &str, t: i128| Ans::Off(p.get_named_tz_offset_nanoseconds(z, t).map(|o| o.offset).map_err(|e| format!("{:?}", e.kind())));
+        let fresh: Vec<[Ans; 2]> = names.iter().map(|z| [off(&FsTzdbProvider::default(), z, PAIR_T[0]), off(&FsTzdbProvider::default(), z, PAIR_T[1])]).collect();
+        let lower: Vec<String> = names.iter().map(|n| n.to_ascii_lowercase()).collect();
+        let mut pairs = vec![];
+        let all = tier == Tier::Thorough;
+        for a in 0..names.len() {
+            for b in 0..names.len() {
+                let related = a == b || a + 1 == b || b + 1 == a || lower[a].starts_with(&lower[b]) || lower[b].starts_with(&lower[a]) || {
+                    // the same last component under another area, or the same leading component of equal length
+                    let (la, lb) = (lower[a].rsplit('/').next().unwrap(), lower[b].rsplit('/').next().unwrap());
+                    la == lb
+                };
+                if all || related {
+                    pairs.push((a as u32, b as u32));
+                }
+            }
+        }
+        NamePairs { names: names.to_vec(), fresh, pairs, all }
+    }
+}
+
+impl Space for NamePairs {
+    fn name(&self) -> String {
+        "c15.name_pair_histories".into()
+    }
+    fn len(&self) -> u64 {
+        self.pairs.len() as u64
+    }
+    fn block(&self) -> u64 {
+        256
+    }
+    fn eval(&self, i: u64, out: &mut Out) {
+        let (a, b) = self.pairs[i as usize];
+        let (a, b) = (a as usize, b as usize);
+        let p = FsTzdbProvider::default();
+        if a != b {
+            out.nontrivial += 1;
+        }
+        for (step, (z, k)) in [(a, 0usize), (b, 0), (b, 1), (a, 1)].into_iter().enumerate() {
+            let name = &self.names[z];
+            let got = call_inf(|| Ans::Off(p.get_named_tz_offset_nanoseconds(name, PAIR_T[k]).map(|o| o.offset).map_err(|e| format!("{:?}", e.kind()))));
+            out.lockstep("query after another name = fresh provider", &Ok(self.fresh[z][k].clone()), &got, |x, y| x == y, || vec![("first", self.names[a].clone()), ("second", self.names[b].clone()), ("step", step.to_string())]);
+        }
+    }
+    fn describe(&self) -> serde_json::Value {
+        json!({"names": self.names.len(), "ordered_pairs": self.pairs.len(), "every_pair": self.all, "queries_per_pair": 4})
+    }
+}
+
 /// A TZif version-2 file written by the harness: `types` (utoff, isdst), `trans` (time, type), footer.
 pub fn write_tzif(types: &[(i32, bool)], trans: &[(i64, u8)], footer: &str) -> Vec<u8> {
     fn header(out: &mut Vec<u8>, timecnt: u32, typecnt: u32, charcnt: u32) {
@@ -535,14 +598,14 @@ impl Space for SyntheticFiles {
 
 pub fn spaces(env: &Env) -> Vec<Box<dyn Space>> {
     let names = zone_names();
-    vec![Box::new(ZoneSweep { names: names.clone(), tier: env.tier }), Box::new(SyntheticFiles::new()), Box::new(Identifiers { names }), Box::new(Histories { depth: env.tier.pick(3, 4), fresh: (0..13).map(|q| query(&FsTzdbProvider::default(), q)).collect() })]
+    vec![Box::new(ZoneSweep { names: names.clone(), tier: env.tier }), Box::new(SyntheticFiles::new()), Box::new(NamePairs::new(&names, env.tier)), Box::new(Identifiers { names }), Box::new(Histories { depth: env.tier.pick(3, 4), fresh: (0..13).map(|q| query(&FsTzdbProvider::default(), q)).collect() })]
 }
 
 pub fn run(env: &Env) -> i32 {
     let mut rep = Report::new(
         env,
         "model_checking",
-        "the zone set is the whole space: every Zone/Link name of tzdata.zi with a TZif file; per zone every listed transition (+-1 s, +-1 ns, midpoints), the period before the first transition, footer-rule transitions after the table, and 5 wall-clock probes around every transition; identifiers in 4 casings and single-character mutants; all query histories up to depth 3 (quick) / 4 (thorough) over three zones against a fresh provider",
+        "the zone set is the whole space: every Zone/Link name of tzdata.zi with a TZif file; per zone every listed transition (+-1 s, +-1 ns, midpoints), the period before the first transition, footer-rule transitions after the table, and 5 wall-clock probes around every transition; identifiers in 4 casings and single-character mutants; all query histories up to depth 3 (quick) / 4 (thorough) over three zones against a fresh provider; two names on one provider for the related name pairs (quick) / every ordered pair of names (thorough)",
     );
     rep.assumptions.push("R7: independent TZif v2+ reader and POSIX TZ evaluator (day scanning), cross-validated against CPython zoneinfo by py/tzif_crosscheck.py; candidate lists are compared as sets".into());
     if let Ok(x) = std::env::var("TMC_R7_CROSSCHECK") {
